@@ -129,4 +129,43 @@ CLAIMS["C16"] = {
     "technique": "Lean 4 proof (interleaving model, discipline => race freedom) over source-regenerated access facts + -race correspondence",
 }
 
+CLAIMS["C01"] = {
+    "text": "Two models of Unmarshal over a universe of Go types (scalars of every width, pointers, slices, arrays, structs with tags/,string, maps with every key kind, "
+            "interface{}, json.Number, RawMessage, []byte): Bind.decode = parse-then-bind written after encoding/json, Stream.decode = single-pass type-directed decoding "
+            "with structural skipping as sonic's JIT does it; stream_eq_bind proves them equal (value and error kind) on every document the strict parser accepts, for "
+            "every option set and type, plus field-lookup, duplicate-key, integer-exactness (iff), null and array theorems. Generated (type, document, config) cases are "
+            "run through sonic, encoding/json and the model.",
+    "note": COMMON_NOTE + " Library (method-carrying/recursive) types and embedded structs are outside the model and judged by encoding/json alone; float values are taken from an oracle table (C19 owns them).",
+    "technique": "Lean 4 proof (single-pass decoder = parse-then-bind specification, induction over types) + three-voice differential correspondence",
+}
+CLAIMS["C11"] = {
+    "text": "The alternative decoder is the parse-then-bind architecture and the default one the streaming architecture of the C01 models, so decoders_agree_on_valid and "
+            "both_reject_malformed are corollaries of stream_eq_bind and the grammar theorems; the same (type, document, option) streams run under the default decoder, "
+            "SONIC_USE_OPTDEC and SONIC_USE_OPTDEC+SONIC_USE_FASTMAP and must agree pairwise on valid documents and all reject malformed ones.",
+    "note": COMMON_NOTE,
+    "technique": "Lean 4 proof (architecture equivalence as corollary of stream_eq_bind) + differential runs across the three decoder configurations",
+}
+CLAIMS["C03"] = {
+    "text": "Enc.encode is a specification of Marshal written after encoding/json (field resolution, omitempty/omitzero/,string, map key rendering and sorting, callbacks, "
+            "base64, interface re-dispatch, all nine switches) with theorems on field order, omitempty, sorted keys as a permutation, and that sonic's and encoding/json's "
+            "escape spellings denote the same bytes for every byte string; sonic's and encoding/json's outputs on generated (type, value) cases are compared token-wise in "
+            "Lean (string literals after unquoting, numbers byte-equal) and against the model.",
+    "note": COMMON_NOTE + " Compiler correctness (encoder IR compile/exec = Enc.encode) is not proved yet; both back ends are tied to the specification by correspondence.",
+    "technique": "Lean 4 proof (properties of the encoding specification) + three-voice differential correspondence with token comparison decided in Lean",
+}
+CLAIMS["C04"] = {
+    "text": "For every option set, type and value: a successful Enc.encode yields exactly one value the strict parser accepts with no trailing bytes (encode_wellformed, "
+            "encode_is_one_value); unrepresentable values are errors, never bytes; callback/RawMessage text enters only through the strict parser; round trip proved for a "
+            "sub-universe. Real Marshal output is validated, decoded back with sonic and encoding/json and compared bit for bit, over all encoder option sets.",
+    "note": COMMON_NOTE + " roundtrip is partial (floats, maps, []byte, interface{}, option-bearing fields missing).",
+    "technique": "Lean 4 proof (well-formedness of the encoding specification by induction) + round-trip correspondence over option sets",
+}
+CLAIMS["C12"] = {
+    "text": "Both encoder back ends are tied to one specification (Enc.encode); the Go fallback routines the interpreter uses instead of native code (integer formatting, "
+            "Quote) are transliterated and proved equal to the specification's formatting for all inputs; every C03/C04 stream runs under the JIT and under "
+            "SONIC_ENCODER_USE_VM and must be byte-identical or both fail.",
+    "note": COMMON_NOTE + " The IR compiler and the interpreter loop themselves are not modelled yet (planned: compile/exec with a compiler-correctness theorem).",
+    "technique": "Lean 4 proof (fallback routines = specification) + differential runs JIT vs VM",
+}
+
 NOT_CLAIMED = {}
